@@ -221,6 +221,14 @@ def check_C02(tr):
 
 
 # ------------------------------------------------------------------------------------- C03
+def proto_line(op):
+    import proto
+    try:
+        return proto.op_line(op)
+    except Exception:
+        return str(op)
+
+
 def check_C03(tr):
     out = []
     inc = {}        # (app, name) -> incarnation counter
@@ -258,6 +266,15 @@ def check_C03(tr):
                                        {"nameplate": (b[0], name), "side": b[1], "events": st.raw_events}, known))
         if st.pre is not None and st.post is not None:
             gone = set(st.pre.np_by_key()) - set(st.post.np_by_key())
+            for k in gone:
+                # a live nameplate may only go away by a release/close of its own app or by a sweep
+                actor = st.bind_pre.get(op.get("c")) if op["op"] == "recv" else None
+                t = op["msg"].get("type") if op["op"] == "recv" else op["op"]
+                legit = (t in ("release", "close") and actor is not None and actor[0] == k[0]) or t == "sweep" or st.crashed() \
+                    or op["op"] == "restart"
+                if not legit:
+                    out.append(Finding("C03", "a nameplate stays bound to its mailbox for as long as it lives", st.i,
+                                       {"nameplate": k, "deleted_by": proto_line(op)}))
             # also a delete-and-recreate inside one step
             for k in st.pre.np_by_key():
                 if k in st.post.np_by_key() and st.pre.np_by_key()[k][0] != st.post.np_by_key()[k][0]:
